@@ -11,13 +11,71 @@ import vlib
 PID = "C19"
 SPEC, CFG, DIAG = "Tr_BookGraph.tla", "Tr_BookGraph.cfg", "Tr_BookGraph_diag.cfg"
 #            (books, ops, maxNodes, dumpEvery)
-SIZES = {"quick": [(6, 70, 40, 1)] * 10 + [(2, 400, 300, 20)] * 4 + [(1, 1500, 1500, 150)] * 2,
-         "thorough": [(40, 90, 60, 1)] * 32 + [(6, 800, 500, 25)] * 16 + [(2, 4000, 3000, 200)] * 8}
+# (bookDepthCost, ownPathErrorCost, otherPathErrorCost): texelutil's defaults and tiny values (equal costs become frequent)
+COSTS = [(100, 200, 50), (1, 2, 1), (100, 200, 50), (1, 1, 1), (2, 4, 1)]
+SIZES = {"quick": [(40, 50, 7, 1)] * 6 + [(6, 70, 40, 1)] * 10 + [(2, 400, 300, 20)] * 4 + [(1, 1500, 1500, 150)] * 2,
+         "thorough": [(400, 50, 7, 1)] * 16 + [(40, 90, 60, 1)] * 32 + [(6, 800, 500, 25)] * 16 + [(2, 4000, 3000, 200)] * 8}
+
+
+# behaviour replay: (shape, cfg of spec/MC_BookOps.tla, cost settings, fraction of the transitions replayed per cost setting)
+REPLAY = {"quick": [("chain", "MC_BookOps_chain.cfg", [(100, 200, 50), (1, 2, 1), (2, 4, 1)], 1.0),
+                    ("diamond", "MC_BookOps_diamond.cfg", [(100, 200, 50), (1, 2, 1)], 0.1)],
+          "thorough": [("chain", "MC_BookOps_chain.cfg", [(100, 200, 50), (1, 2, 1), (2, 4, 1), (1, 1, 1), (3, 5, 2)], 1.0),
+                       ("diamond", "MC_BookOps_diamond.cfg", [(100, 200, 50), (1, 2, 1), (2, 4, 1)], 1.0)]}
+
+
+def scenarios_from_tlc(shape, cfg, wd):
+    """TLC enumerates the complete state graph of BookOps for the shape; every transition becomes one scenario:
+    shortest operation path (BFS tree of the printed transitions) to its source state, then the transition itself."""
+    r = vlib.tlc("MC_BookOps.tla", cfg, os.path.join(wd, "ops_" + shape), workers=1, timeout=900)
+    if not r.ok:
+        raise vlib.ToolFailure(f"TLC on MC_BookOps.tla/{cfg}: {r.out[-1500:]}")
+    edges = []
+    for line in r.out.split("\n"):
+        if line.startswith('"{'):
+            edges.append(json.loads(json.loads(line)))
+
+    def key(st):
+        return json.dumps(st, sort_keys=True)
+
+    def opstr(e):
+        return f"S:{e['n']}:{e['v']}" if e["op"] == "S" else f"T:{e['n']}"
+
+    def apply(st, e):
+        st = json.loads(json.dumps(st))
+        if e["op"] == "S":
+            st["val"][e["n"]] = e["v"]
+        else:
+            st["pend"][e["n"]] = not st["pend"][e["n"]]
+        return st
+    out = {}
+    for e in edges:
+        out.setdefault(key(e["src"]), []).append(e)
+    # initial state: the only one in which every node is unsearched and nothing is pending
+    init = [json.loads(k) for k in out if all(v == "INV" for v in json.loads(k)["val"].values()) and not any(json.loads(k)["pend"].values())]
+    if len(init) != 1:
+        raise vlib.ToolFailure("BookOps: initial state not found among the printed transitions")
+    path = {key(init[0]): []}
+    queue = [init[0]]
+    while queue:
+        st = queue.pop(0)
+        for e in out.get(key(st), []):
+            nx = apply(st, e)
+            if key(nx) not in path:
+                path[key(nx)] = path[key(st)] + [opstr(e)]
+                queue.append(nx)
+    scen = []
+    for k, es in out.items():
+        if k not in path:
+            raise vlib.ToolFailure("BookOps: a printed source state is unreachable in the BFS tree")
+        for e in es:
+            scen.append(";".join(path[k] + [opstr(e)]))
+    return scen, r.distinct, len(edges)
 
 
 def run(tier, seed):
     rep = vlib.Report(PID, tier, seed, "model_checking")
-    bdir, _ = vlib.build("plain", ["h_book"])
+    bdir, _ = vlib.build("plain", ["h_book", "h_bookexh"])
     wd = vlib.rundir(PID)
     tmp = os.path.join(wd, "tmp")
     os.makedirs(tmp, exist_ok=True)
@@ -26,7 +84,8 @@ def run(tier, seed):
     def gen(j):
         k, books, ops, maxn, every = j
         out = os.path.join(wd, f"bk.{k}.ndjson")
-        p = vlib.sh([os.path.join(bdir, "h_book"), str(seed * 1000 + k), str(books), str(ops), str(maxn), str(every), out, tmp], timeout=3000)
+        costs = COSTS[k % len(COSTS)]
+        p = vlib.sh([os.path.join(bdir, "h_book"), str(seed * 1000 + k), str(books), str(ops), str(maxn), str(every), out, tmp] + [str(c) for c in costs], timeout=3000)
         if p.returncode != 0:
             return out, {"error": f"rc={p.returncode} {p.stderr[-400:]}"}
         return out, json.loads(p.stdout.strip().split("\n")[-1])
@@ -40,15 +99,45 @@ def run(tier, seed):
         files.append(out)
         for k in tot:
             tot[k] = max(tot[k], info[k]) if k == "max_nodes" else tot[k] + info[k]
+    # behaviour replay of the BookOps state graph
+    import random
+    rjobs = []
+    nscen = ntrans = nstates = 0
+    for shape, cfg, costs, frac in REPLAY[tier]:
+        scen, dist, ned = scenarios_from_tlc(shape, cfg, wd)
+        nstates += dist
+        ntrans += ned
+        for ci, c in enumerate(costs):
+            rng = random.Random(seed * 131 + ci)
+            mine = scen if frac >= 1.0 else rng.sample(scen, int(len(scen) * frac))
+            nparts = max(1, min(8, len(mine) // 4000))
+            for part in range(nparts):
+                sf = os.path.join(wd, f"scen.{shape}.{ci}.{part}.txt")
+                open(sf, "w").write("\n".join(mine[part::nparts]) + "\n")
+                rjobs.append((shape, sf, os.path.join(wd, f"rp.{shape}.{ci}.{part}.ndjson"), c))
+                nscen += len(mine[part::nparts])
+
+    def rpl(j):
+        shape, sf, out, c = j
+        p = vlib.sh([os.path.join(bdir, "h_bookexh"), shape, sf, out] + [str(x) for x in c], timeout=3000)
+        return out, (json.loads(p.stdout.strip().split("\n")[-1]) if p.returncode == 0 else {"error": f"rc={p.returncode} {p.stderr[-300:]}"})
+    for out, info in vlib.pmap(rpl, rjobs):
+        if "error" in info:
+            rep.violation("harness-crash", "h_bookexh failed (assertion/crash in the book builder?): " + info["error"])
+            continue
+        files.append(out)
     vlib.linear_check(rep, SPEC, CFG, DIAG, files, wd)
     rep.cov.update(tot)
-    rep.cov["evaluations"] = tot["dumps"]
-    rep.cov["distinct_nontrivial"] = tot["dumps"]
-    rep.cov["rule"] = ("seeded operation sequences on books of up to 40 / 300 / 1500 nodes (quick); every dumped graph is a distinct history prefix; "
+    rep.cov.update({"bookops_states": nstates, "bookops_transitions": ntrans, "scenarios_replayed": nscen})
+    rep.cov["evaluations"] = tot["dumps"] + nscen
+    rep.cov["distinct_nontrivial"] = tot["dumps"] + nscen
+    rep.cov["rule"] = ("seeded operation sequences on books of up to 7 / 40 / 300 / 1500 nodes (quick), half of them with a tiny score alphabet; every dumped graph is a distinct history prefix; "
                        "each dump checks all five equation families on every node")
     rep.sample({"ops": ["add (random legal move under a random node, transposition-prone)", "search (score in [-300,300] / mate / 0 / IGNORE / INVALID, "
                         "dropout move legal / covered by a child / empty)", "pend / unpend", "reload (write + read)", "import (PGN of a random game)"]})
-    rep.assumptions += ["the harness reads node fields through the public getters and the friend class name BookBuildTest"]
+    rep.assumptions += ["behaviour replay: TLC enumerates the complete state graph of spec/BookOps.tla (inputs of a fixed 4-node chain / 6-node diamond with a transposition, small value alphabets); "
+                        "every transition is replayed on a fresh real Book via its shortest operation path and the resulting graph is validated against BookGraph!FixedPoint",
+                        "the harness reads node fields through the public getters and the friend class name BookBuildTest"]
     return rep.finish()
 
 
